@@ -54,6 +54,7 @@ class MakeTasks(Source[Iterable[Task]]):
         restored_envs = set(self._restored.environments['environment_id'])
         restored_vals = set(self._restored.evaluators['evaluator_id'])
         restored_outs = set(zip(*self._restored.interactions[['environment_id','learner_id','evaluator_id']]))
+        restored_outs |= self._restored.finished #evaluations that produced no rows have no interactions
 
         learner_counts = Counter([l for _,l,_ in self._triples])
 
